@@ -123,6 +123,13 @@ def check(ctx):
             continue
         ms = mutations(fn)
         if not ms:
+            # the mutation may sit in a private helper that takes the structure as a parameter (`_move_to_front(tasks, x)`):
+            # judge the caller on its helper-transparent view
+            ffn = flat(ctx, fn, 1)
+            if ffn is not fn and mutations(ffn):
+                fn = ffn
+                ms = mutations(fn)
+        if not ms:
             continue
         n_funcs += 1
         st = f"{JB}:{q}"
@@ -226,8 +233,12 @@ def check(ctx):
     for q in ("resume_job", "disown_fn"):
         fn = mod.func(q)
         st = f"{JB}:{q}"
-        cfg = CFG(fn)
         ms = mutations(fn)
+        if not ms:
+            # (the purge of dead jobs at the top is the documented first step, not the operation's own mutation)
+            fn = flat(ctx, fn, 1, skip=("_clear_dead_jobs", "get_tasks", "get_jobs", "get_task", "print_one_job"))
+            ms = mutations(fn)
+        cfg = CFG(fn)
         if not ms:
             raise AnalysisError(f"{st}: no table mutation found")
         errs = [n for n in cfg.nodes if n.kind == "stmt" and _is_error_return(n.ast)]
@@ -307,7 +318,10 @@ def check(ctx):
 
     for q in ("jobs", "bg", "disown_fn"):
         fn = mod.func(q)
-        ctx.ob("R4", f"{JB}:{q}", "runs inside use_main_jobs()", "use_main_jobs" in decos(fn), key=f"{q}|no-use_main_jobs", where=loc(fn))
+        # as a decorator, or as one `with use_main_jobs():` around the whole body
+        body = [s_ for s_ in fn.body if not (isinstance(s_, ast.Expr) and isinstance(s_.value, ast.Constant))]
+        whole_with = len(body) == 1 and isinstance(body[0], ast.With) and any(isinstance(it.context_expr, ast.Call) and call_name(it.context_expr) == "use_main_jobs" for it in body[0].items)
+        ctx.ob("R4", f"{JB}:{q}", "runs inside use_main_jobs()", "use_main_jobs" in decos(fn) or whole_with, key=f"{q}|no-use_main_jobs", where=loc(fn))
     ctx.ob("R4", f"{JB}:fg", "fg is @unthreadable (runs on the main thread)", "unthreadable" in decos(mod.func("fg")), key="fg|threadable", where=loc(mod.func("fg")))
     um = mod.func("use_main_jobs")
     cfg = CFG(um)
@@ -450,6 +464,9 @@ def _resume_contract(ctx, mod):
 
     fn = mod.func("resume_job")
     st = f"{JB}:resume_job"
+    if not any(isinstance(c.func, ast.Attribute) and c.func.attr == "appendleft" for c in calls_in(fn)):
+        # the promotion may be a private helper (`_move_to_front(tasks, tid)`)
+        fn = flat(ctx, fn, 1, skip=("_clear_dead_jobs", "get_tasks", "get_jobs", "get_task", "print_one_job"))
     ps = dtable.paths(fn, stores=True, loops="skip")
     ok_paths = [p_ for p_ in ps if dtable.feasible(p_) and (p_.outcome == "fall" or (p_.outcome == "return" and (p_.value is None or const_value(p_.value, 0) is None)))]
     if not ok_paths:
